@@ -137,6 +137,17 @@ CLAIMED = {
              "begins with a declaration keyword (CHARACTER/COMPLEX/CLASS/DOUBLE...) is a recorded known finding; enumeration below solver-chosen indices",
         ref="DESIGN.md section 5 C14", rx=True,
     ),
+    "C05": dict(
+        text="(S, symbolic) find_in_scope/get_use_tree traced by CrossHair on object graphs built with the real constructors: visibility "
+             "codes, default visibility, ONLY/rename/shadowing/re-export flags and the query name are symbolic ints/bools; result == "
+             "Fortran rule on every path. (W) three-file worlds over all combinations of accessibility forms, default PRIVATE, USE with "
+             "ONLY/rename, re-export, local and host declarations: every use site of every standard-conforming world lands exactly on the "
+             "declaration (file, line, column) a reference resolver written from the Fortran rules binds it to, or on nothing. (T) 45 '%' "
+             "chain sites incl. two-level EXTENDS inheritance, nested types, pointer components, array elements.",
+        note="known finding C05-reexport-private-default is excluded by its exact predicate; W/T run concretely below solver-chosen parameters; "
+             "INCLUDE/IMPORT/submodule association outside",
+        ref="DESIGN.md section 5 C05",
+    ),
 }
 
 NOT_APPLICABLE = {
